@@ -102,7 +102,10 @@ pub fn prepare_in(b: &Behaviour, dna: &[u16], env: &Env) -> Option<Prepared> {
             // a const parameter named like a type or trait that is in scope (Clone, Eq, ..) is ambiguous to the language
             // itself in `Ty<Clone>`, whoever writes the impl; only names that are not types at the derive site are used
             let mut cl = lower.clone();
-            cl.extend(upper.iter().filter(|n| n.len() == 1).cloned());
+            // single capital letters are what generated generic parameters are called; give them weight
+            for _ in 0..12 {
+                cl.extend(upper.iter().filter(|n| n.len() == 1).cloned());
+            }
             cfg.const_names = Some(cl);
         }
         cfg.raw_idents = false;
